@@ -27,8 +27,15 @@ def main():
     raw = json.load(open(path))
     fns = {}
     for b in raw['bodies']:
+        callees = set()
+        for blk in b['blocks']:
+            t = blk['t']
+            if t['k'] == 'call':
+                c = ((t.get('f') or {}).get('fn') or {}).get('def')
+                if c and c.startswith(raw['crate'] + '::'):
+                    callees.add(c)
         fns[b['q']] = {'sig': b.get('sig'), 'impl_self': b.get('impl_self'), 'kind': b.get('kind'), 'argc': b.get('argc'), 'vis': b.get('vis'),
-                       'impl_trait': b.get('impl_trait'), 'tuple_joins': tuple_joins(b)}
+                       'impl_trait': b.get('impl_trait'), 'tuple_joins': tuple_joins(b), 'callees': sorted(callees)}
     adts = {}
     for a in raw['adts']:
         adts[a['q']] = {'kind': a['kind'], 'variants': [{'name': v['name'], 'fields': [[f['name'], f['ty'], f.get('pub')] for f in v['fields']]} for v in a['variants']]}
